@@ -8,6 +8,7 @@ import (
 	"runtime"
 	"sort"
 	"strings"
+	"time"
 )
 
 func main() {
@@ -22,6 +23,8 @@ func main() {
 		os.Exit(cmdCheck(os.Args[2:]))
 	case "ssa":
 		cmdSSA(os.Args[2:])
+	case "lean":
+		os.Exit(cmdLean(os.Args[2:]))
 	default:
 		fmt.Fprintln(os.Stderr, "unknown command", os.Args[1])
 		os.Exit(2)
@@ -151,3 +154,31 @@ func (g *Gen) obligationsFor(name string) ([]*Obligation, []*Obligation, error) 
 	return v.obls, v.smokes, nil
 }
 
+
+// cmdLean: generate and check the Lean lemmas of the given packages (used by setup).
+func cmdLean(args []string) int {
+	fs := flag.NewFlagSet("lean", flag.ExitOnError)
+	repo := fs.String("repo", "/repo", "repository")
+	verif := fs.String("verif", "/verif", "verif dir")
+	fs.Parse(args)
+	g, err := LoadRepo(*repo, filepath.Join(*verif, "contracts", "extern.spec"))
+	if err != nil {
+		fmt.Fprintln(os.Stderr, err)
+		return 2
+	}
+	rc := 0
+	for _, p := range fs.Args() {
+		sf := g.specFileByPkgName(p)
+		if sf == nil {
+			fmt.Println("no contract file for", p)
+			rc = 1
+			continue
+		}
+		ok, names, secs, out := g.CheckLean(sf, *verif, 20*time.Minute)
+		fmt.Printf("lean %s: ok=%v lemmas=%v %.1fs\n%s\n", p, ok, names, secs, out)
+		if !ok {
+			rc = 1
+		}
+	}
+	return rc
+}
